@@ -608,6 +608,41 @@ func c14Prefix(w *World, r *Result, tainted map[ssa.Value]bool) {
 	PrefixDigestRule(w, r, "R-C14-prefix", tainted)
 }
 
+// fileContent: the value is what os.ReadFile returned, possibly handed back by a helper of the
+// product that returns it unchanged (or nothing, with an error).
+func fileContent(w *World, v ssa.Value, depth int) bool {
+	ex, ok := v.(*ssa.Extract)
+	if !ok || ex.Index != 0 || depth > 3 {
+		return false
+	}
+	rc, ok := ex.Tuple.(*ssa.Call)
+	if !ok {
+		return false
+	}
+	if calleeName(rc) == "os.ReadFile" {
+		return true
+	}
+	callee := rc.Call.StaticCallee()
+	if callee == nil || callee.Blocks == nil || !w.IsProduct(pkgOf(callee)) {
+		return false
+	}
+	n := 0
+	for _, b := range callee.Blocks {
+		ret, ok := b.Instrs[len(b.Instrs)-1].(*ssa.Return)
+		if !ok || len(ret.Results) == 0 {
+			continue
+		}
+		if k, ok := ret.Results[0].(*ssa.Const); ok && k.IsNil() {
+			continue
+		}
+		if !fileContent(w, ret.Results[0], depth+1) {
+			return false
+		}
+		n++
+	}
+	return n > 0
+}
+
 // PrefixDigestRule: the namespace prefix of a file is a formatted digest of exactly the bytes read from it.
 func PrefixDigestRule(w *World, r *Result, rule string, tainted map[ssa.Value]bool) {
 	found := false
@@ -667,6 +702,9 @@ func PrefixDigestRule(w *World, r *Result, rule string, tainted map[ssa.Value]bo
 							continue
 						}
 						in := src.resolve(c.Call.Args[0])
+						if !tainted[in] && (fileContent(w, in, 0) || fileContent(w, rootOf(in, 0), 0)) {
+							inputOK = true
+						}
 						if ex, ok := rootOf(in, 0).(*ssa.Extract); ok && ex.Index == 0 {
 							if rc, ok := ex.Tuple.(*ssa.Call); ok && calleeName(rc) == "os.ReadFile" && !tainted[in] {
 								inputOK = true
